@@ -161,6 +161,15 @@ def r2(ctx):
             ok = (isinstance(asg, ast.Assign) and len(asg.targets) == 1 and isinstance(asg.targets[0], ast.Name)
                   and asg.targets[0].id == "rng" and "rng" in f.params
                   and isinstance(iff, ast.If) and U(iff.test) == "rng is None" and asg in iff.body)
+            if not ok and isinstance(asg, ast.Assign) and len(asg.targets) == 1 and isinstance(asg.targets[0], ast.Name) and "rng" in f.params \
+                    and isinstance(iff, ast.If) and U(iff.test) == "rng is None" and asg in iff.body and len(iff.body) == 1 and len(iff.orelse) == 1:
+                # if rng is None: X = default_rng()  else: X = rng      (the conditional value `default_rng() if rng is None else rng` as a statement)
+                o_ = iff.orelse[0]
+                ok = isinstance(o_, ast.Assign) and len(o_.targets) == 1 and U(o_.targets[0]) == asg.targets[0].id and U(o_.value) == "rng"
+            if not ok and isinstance(asg, ast.Assign) and len(asg.targets) == 1 and isinstance(asg.targets[0], ast.Name) and "rng" in f.params \
+                    and isinstance(iff, ast.If) and U(iff.test) == "rng is not None" and asg in iff.orelse and len(iff.body) == 1 and len(iff.orelse) == 1:
+                o_ = iff.body[0]
+                ok = isinstance(o_, ast.Assign) and len(o_.targets) == 1 and U(o_.targets[0]) == asg.targets[0].id and U(o_.value) == "rng"
             if not ok and isinstance(asg, ast.IfExp) and "rng" in f.params:
                 # rng = default_rng() if rng is None else rng   /   rng = rng if rng is not None else default_rng()
                 t = U(asg.test).replace(" ", "")
